@@ -300,6 +300,40 @@ def extract(repo):
             it.body = it.body[:mm.start()] + it.body[mm.end():]
     items.extend(hoisted)
 
+    # ---- R10: the progress-guard fuel `fuel: Cell<u32>` becomes a plain `fuel: u32`; `self.fuel.get()` -> `self.fuel`,
+    # `self.fuel.set(E);` -> `self.fuel = E;`, and every Parser method that (transitively, through `self.`-calls) writes
+    # the fuel and has a `&self` receiver gets `&mut self`.  Cell is interior mutability for one Copy value in
+    # single-threaded code, so this changes no behaviour; it makes the fuel visible to Verus, which cannot
+    # specify mutation through `&self`.  Call sites are untouched.
+    methods = [it for it in items if it.kind == 'fn' and it.owner == 'Parser']
+    fuel_reset = None
+    if any(it.kind == 'type' and it.name == 'Parser' and re.search(r'\bfuel\s*:\s*Cell<u32>', it.text) for it in items):
+        for it in items:
+            if it.kind == 'type' and it.name == 'Parser':
+                it.text = re.sub(r'\bfuel\s*:\s*Cell<u32>', 'fuel: u32', it.text)
+        muts = set(it.name.split('::')[1] for it in methods if '.fuel.set(' in it.body)
+        grew = True
+        while grew:
+            grew = False
+            for it in methods:
+                nm = it.name.split('::')[1]
+                if nm not in muts and any(re.search(r'self\s*\.\s*%s\s*\(' % m, it.body) for m in muts):
+                    muts.add(nm)
+                    grew = True
+        for it in methods:
+            nm = it.name.split('::')[1]
+            if nm == 'bump':
+                mm = re.search(r'self\.fuel\.set\((\d+)\)', it.body)
+                if mm:
+                    fuel_reset = int(mm.group(1))
+            it.body = re.sub(r'self\.fuel\.set\(([^;]*)\);', r'self.fuel = \1;', it.body).replace('self.fuel.get()', 'self.fuel')
+            if nm in muts and re.search(r'\(\s*&self\b', it.header):
+                it.header = re.sub(r'\(\s*&self\b', '(&mut self', it.header)
+        if fuel_reset is None:
+            raise AnchorLost('Parser::bump does not reset the fuel with a literal')
+    else:
+        raise AnchorLost('struct Parser has no `fuel: Cell<u32>` field')
+
     # ---- parse_module: only the `Parser { .. }` literal is taken (for the generated top-level lemma)
     s_, o_, c_ = parser.cut_braced(r'^pub fn parse_module\b', 0)
     pm = parser.text[o_:c_ + 1]
@@ -308,12 +342,12 @@ def extract(repo):
         raise AnchorLost('parse_module: `let mut p = Parser { .. }` not found')
     bo = o_ + lm.end(1) - 1
     bc = match_brace(parser.text, parser.mask, bo)
-    parser_literal = rw(parser.text[o_ + lm.start(1):bc + 1])
+    parser_literal = re.sub(r'\bfuel\s*:\s*Cell::new\(([^)]*)\)', r'fuel: \1', rw(parser.text[o_ + lm.start(1):bc + 1]))
     tail = norm_ws(parser.text[bc + 1:c_])
     if tail != '; module(&mut p); p.build_tree()':
         raise AnchorLost('parse_module: tail is not `module(&mut p); p.build_tree()` but %r' % tail)
 
-    return {'parser_literal': parser_literal, 'parser_literal_line': parser.line_of(o_ + lm.start(1)),
+    return {'fuel_reset': fuel_reset, 'parser_literal': parser_literal, 'parser_literal_line': parser.line_of(o_ + lm.start(1)),
             'items': items, 'variants': variants, 'tokens': tokens, 'anchors': anchors,
             'impl_parser_header': impl_header, 'dropped': dropped}
 
